@@ -75,7 +75,7 @@ def _e2e(text):
 
 CLAIMS.update({
     'C02': dict(_e2e('SYSTEM LEVEL (exploration, synctest e2e): after the fault prefix ends every reliable message is read and both sides report zero buffered/pending/in-flight bytes within heal + 600 s of virtual time (blackouts > 60 s, zero-window readers, 40 % loss, reordering). '
-        'COMPONENT LEVEL ONLY (proof, loss-recovery machinery: Props/C02rack.lean on Model/Rack.lean, whose conditions and formulas are regenerated from onRackAfterSACK / onRackTimeoutLocked / '
+        'COMPONENT LEVEL (supporting theorems, loss-recovery machinery only: Props/C02rack.lean on Model/Rack.lean, whose conditions and formulas are regenerated from onRackAfterSACK / onRackTimeoutLocked / '
         'onPTOTimerLocked / schedulePTOAfterSendLocked / tlr*Locked / the RTT part of processSelectiveAck on every run, and which is compared with a white-box snapshot of the real Association after '
         'every op of the direct-drive harness): RACK marks only outstanding original transmissions and only when a chunk sent more than the reordering window later was delivered '
         '(C02_rack_marks_only_outstanding, C02_rack_loss_sound, C02_rack_never_marks_newest); the window stays in [0, SRTT] (C02_reownd_bounded); the RACK timer is armed whenever the list is non-empty, '
@@ -84,13 +84,13 @@ CLAIMS.update({
         'Two full-strength statements are FALSE of the code and proved false: the RACK timer callback never marks anything in any reachable state (C02_rack_timer_inert, witness '
         'C02_rack_timer_overdue_witness, replayed from corpus/C02), and a PTO that finds data pending flags nothing and is not re-armed even when the window blocks new data '
         '(C02_pto_no_probe_when_pending, replayed from corpus/C02); in both cases recovery falls back to the next SACK or T3, which is why the e2e liveness predicate still holds. '
-        'NOT proved: end-to-end liveness (C02_progress / C02_drain of DESIGN §5).'), category='proof',
+        'NOT proved: end-to-end liveness (C02_progress / C02_drain of DESIGN §5); the claimed level therefore stays exploration, the theorems are supporting.'),
         technique='Lean 4 proof (walk lemmas, invariant + induction over all operation lists of the loss-recovery component, decide on witnesses) on translator-generated conditions + white-box model/implementation differential replay; system level: seeded fault-schedule exploration in virtual time'),
     'C06': dict(_e2e('SYSTEM LEVEL (exploration, synctest e2e + PolicySpec on the wire): unordered / partially reliable streams: reads must match distinct written messages (subsequence for ordered), DCEP always delivered in order; transmissions per chunk within the policy (known finding D14). '
-        'COMPONENT LEVEL ONLY (proof, one clause: "abandoned chunks are not skipped by one of the retransmission paths"): Props/C06rack.lean on Model/Rack.lean - RACK on a SACK, the RACK timer, the PTO and T3 flag '
+        'COMPONENT LEVEL (supporting theorems, one clause: "abandoned chunks are not skipped by one of the retransmission paths"): Props/C06rack.lean on Model/Rack.lean - RACK on a SACK, the RACK timer, the PTO and T3 flag '
         'only chunks that are neither acknowledged nor abandoned and change nothing else in the chunk store (C06_rack_skips_abandoned, C06_rack_dead_chunks_untouched, C06_rack_sack_marks_outstanding, '
         'C06_t3_skips_abandoned); model tied to the code by white-box snapshots after every op, including sequences with limited-retransmission and timed streams. '
-        'NOT proved: reassembly integrity for unordered delivery, at-most-once, the N+1 transmission bound (C06_* of DESIGN §5).'), category='proof',
+        'NOT proved: reassembly integrity for unordered delivery, at-most-once, the N+1 transmission bound (C06_* of DESIGN §5); the claimed level therefore stays exploration, the theorems are supporting.'),
         technique='Lean 4 proof (characterisation of the marking walk, case analysis of the PTO) + white-box model/implementation differential replay; system level: seeded exploration + Lean predicates'),
     'C07': _e2e('Partial-reliability scenarios: a message that was not delivered must be one the sender told the peer to skip (stream entry or cumulative point of a FORWARD-TSN / I-FORWARD-TSN); everything else is delivered.'),
     'C08': _e2e('Graceful shutdown with data still queued, one-sided and crossed, under faults: Shutdown()==nil implies all earlier writes read in order before EOF; both sides closed; late writes/OpenStream rejected and never delivered.'),
@@ -107,7 +107,8 @@ CLAIMS.update({
                 'fragments of one message). Hypothesis forced by the 16/32-bit sequence space: the pushed fragment belongs to a message fewer than 2^15 (SSN) / 2^31 (MID) ahead of the reader. '
                 'The model is tied to reassembly_queue.go by differential replay; the executable predicate (every read = one written message, at most once, in order, gap-free without forwards, '
                 'all returned after draining) is evaluated on the implementation outputs with generator ground truth. '
-                'NOT covered yet: packetize/TSN assignment (C01_packetize_wf, C01_tsn_assignment), duplicate filtering (C01_dedup, C05), wire content, and the end-to-end NetSys invariant (C01_netsys_prefix).',
+                'SENDER HALF (Props/C01wire.lean, on the L0 sender model tied by the direct-drive correspondence): for ALL runs (writes, gathers, arbitrary SACKs, T3, RACK/PTO marks, abandonment) every DATA/I-DATA chunk any gather puts on the wire is an un-acknowledged faithful copy (stream, message identity, PPI, U/B/E, SSN, MID, FSN, length) of a chunk created by an accepted write (C01_wire_faithful); an acked chunk is never flagged for retransmission (C01_acked_never_marked); a write creates exactly the fragments of one message (C01_write_fragments) and message identities are unique per write (C01_message_identity). '
+                'NOT covered yet: duplicate filtering at association level (C01_dedup, C05 is the component theorem), and the composed end-to-end NetSys invariant (C01_netsys_prefix) — system level stays exploration.',
         'note': NOTE_COMMON + ' Known finding D15: nothing in the association enforces the 2^15 hypothesis for DATA (a_rwnd counts user bytes only, entry cap off by default): '
                 'an application that lags 32769 small ordered messages behind loses acknowledged messages and later stalls (witness replayed on every run; e2e witness in corpus/C01).',
         'technique': 'Lean 4 proof (refinement of the queue to a table of messages, induction over arbitrary honest runs) + model/implementation differential replay + executable predicate on implementation outputs',
